@@ -44,56 +44,88 @@ def sd1(F, R):
 @rule("SD2", ["C14"], floor=8,
       doc="card_command assembles the 6-byte frame: byte0 = 0x40 | command, bytes1..4 = arg big-endian, byte5 = crc7(frame[0..5]) stored before the frame is written; the same array is passed to write_bytes")
 def sd2(F, R):
+    """Decided by evaluating card_command up to its write_bytes call with a symbolic command byte and argument (bit-vector
+    domain): whatever statements assemble the frame (array literal, byte stores, copy_from_slice of to_be_bytes), the six
+    bytes handed to the bus are compared bit by bit with the specified frame.  crc7 is replaced by its specification
+    (rule CR1 proves the two equal), computed over the very bytes 0..5 of the buffer."""
+    from .absint import Interp, State, Undecided
+    from .absval import sym_int, bits_of, is_int, is_ptr, mk_int, TOP as _TOP
+    from .rules_crc import ref_step
+    from .stdmodel import slice_view
     fn = F.fn(SD + "::card_command")
-    frames = [(b, i, s) for b, i, s in fn.stmts() if s["k"] == "Assign" and s["rv"]["k"] == "Aggregate" and s["rv"].get("agg") == "Array" and len(s["rv"]["ops"]) == 6]
-    if len(frames) != 1:
-        R.bad(fn, "frame", "expected exactly one 6-byte frame array, found %d" % len(frames), kind="anchor-missing")
-        return
-    b, i, s = frames[0]
-    fl = s["p"]["l"]
-    ops = [fn.term_of_operand(o, b) for o in s["rv"]["ops"]]
-    cmd = ("arg", 2)
-    arg = ("arg", 3)
-    ok0 = tmatch(ops[0], ("bin", "BitOr", ("c", 0x40), cmd)) is not None or tmatch(ops[0], ("bin", "BitOr", cmd, ("c", 0x40))) is not None
-    R.require(ok0, fn, "byte0", "frame byte 0 must be 0x40 | command (start bit 0, transmission bit 1), got %s" % tstr(ops[0]), fn.loc(b, i))
-    def be_byte(t, k):
-        """t is byte k (0 = most significant) of the 32-bit argument: (arg >> 8*(3-k)) as u8, or arg.to_be_bytes()[k]"""
-        sh = 8 * (3 - k)
-        if sh and tmatch(t, ("cast", ("bin", "Shr", arg, ("c", sh)))) is not None and t[1] == "u8":
-            return True
-        if not sh and tmatch(t, ("cast", arg)) is not None and t[1] == "u8":
-            return True
-        if sh and tmatch(t, ("cast", ("bin", "BitAnd", ("bin", "Shr", arg, ("c", sh)), ("c", 0xFF)))) is not None:
-            return True
-        return (t[0] == "place" and tmatch(t[1], ("call", "to_be_bytes", [arg])) is not None and len(t[2]) == 1
-                and isinstance(t[2][0], tuple) and ((t[2][0][0] == "idx" and t[2][0][1][:2] == ("c", k)) or (t[2][0][0] == "cidx" and t[2][0][1] == k)))
-    for k, sh in ((1, 24), (2, 16), (3, 8)):
-        R.require(be_byte(ops[k], k - 1), fn, "byte%d" % k, "frame byte %d must be (arg >> %d) as u8, got %s" % (k, sh, tstr(ops[k])), fn.loc(b, i))
-    R.require(be_byte(ops[4], 3), fn, "byte4", "frame byte 4 must be arg as u8, got %s" % tstr(ops[4]), fn.loc(b, i))
-    # crc store: frame[5] = crc7(&frame[0..5])
-    stores = [(bb, ii, ss) for bb, ii, ss in fn.stmts() if ss["k"] == "Assign" and ss["p"]["l"] == fl and ss["p"]["proj"]]
-    okc = False
-    crc_block = None
-    for bb, ii, ss in stores:
-        idx = ss["p"]["proj"][0]
-        v = fn.term_of_rvalue(ss["rv"], bb)
-        if idx[0] == "index" and fn.term_of_operand({"k": "copy", "p": {"l": idx[1], "proj": []}}, bb)[:2] == ("c", 5):
-            e = tmatch(v, ("call", "sdcard::proto::crc7", ["$x"]))
-            if e is not None:
-                src = tstr(e["$x"])
-                rng = find_sub(e["$x"], ("agg", "Range", [("c", 0), ("c", 5)]))
-                if rng is None:
-                    rng = find_sub(e["$x"], ("agg", "RangeTo", [("c", 5)]))
-                okc = rng is not None and has_sub(e["$x"], lambda q: q[0] == "var" and q[1] == fl)
-                crc_block = bb
-    R.require(okc, fn, "byte5=crc7", "frame byte 5 must be crc7(&frame[0..5]) of the same array", fn.loc(b, i))
-    # the frame written is this array, after the crc store
     wr = [(bb, t) for bb, t in fn.calls() if call_matches(t, ("SdCardInner::write_bytes",))]
-    okw = len(wr) == 1 and has_sub(fn.term_of_operand(wr[0][1]["args"][1], wr[0][0]), lambda q: q[0] == "var" and q[1] == fl)
-    R.require(okw, fn, "frame-written", "the assembled frame must be the buffer passed to write_bytes", fn.loc(wr[0][0]) if wr else None)
-    if wr and crc_block is not None:
-        R.require(fn.dominates(crc_block, wr[0][0]), fn, "crc-before-write", "the CRC byte must be stored before the frame is sent", fn.loc(wr[0][0]))
-    # crc7 ends with the end bit: checked by CR1 (C19)
+    R.require(len(wr) == 1, fn, "frame-written", "card_command must send the frame with one write_bytes call", fn.loc(0))
+    if len(wr) != 1:
+        return
+    wb, wt = wr[0]
+    crc_inputs = []
+
+    def crc7_model(I, st, a, ctx):
+        sv = slice_view(I, st, a[0])
+        if sv is None or sv[3] is None or int_const_(sv[1]) is None or int_const_(sv[2]) is None:
+            return [(_TOP, st)]
+        lo, n = int_const_(sv[1]), int_const_(sv[2])
+        elems = sv[3][lo:lo + n]
+        crc = (0,) * 7
+        for e in elems:
+            crc = ref_step(crc, bits_of(e), 0x09, 7)
+        crc_inputs.append((lo, n))
+        return [(mk_int(8, False, (1,) + tuple(crc)), st)]
+    from .absval import int_const as int_const_
+    def busy_model(I, st, a, ctx):
+        from .stdmodel import ok as _ok, err as _err
+        from .absval import UNIT as _UNIT
+        return [(_ok(_UNIT), st), (_err(_TOP), st.fork())]      # what the wait does is SD3's / SD12's business
+    sent = []
+
+    def write_model(I, st, a, ctx):
+        # the frame as it is at the moment it goes onto the bus
+        from .stdmodel import ok as _ok
+        from .absval import UNIT as _UNIT
+        sv = slice_view(I, st, a[1]) if len(a) > 1 else None
+        if sv is not None and sv[3] is not None and int_const_(sv[1]) is not None and int_const_(sv[2]) is not None:
+            lo_, n_ = int_const_(sv[1]), int_const_(sv[2])
+            sent.append((list(sv[3][lo_:lo_ + n_]), st))
+        else:
+            sent.append((None, st))
+        return [(_ok(_UNIT), st)]
+    I = Interp(F, mode="bv", max_paths=4000, max_steps=400000, models={"sdcard::proto::crc7": crc7_model, "sdcard::SdCardInner::wait_not_busy": busy_model, "sdcard::SdCardInner::write_bytes": write_model})
+    st = State()
+    cmd = sym_int(I.vars, "k", 8)
+    arg = sym_int(I.vars, "a", 32)
+    selfp = I.heap_alloc(st, _TOP)
+    try:
+        outs = I.run(fn, [selfp, cmd, arg], st, 0, stop=(wt["target"],))
+    except Undecided as e:
+        R.bad(fn, "frame", "cannot evaluate the frame assembly of card_command: %s" % e, fn.loc(wb))
+        return
+    stops = list(sent)
+    R.require(bool(stops), fn, "frame", "no path of card_command reaches write_bytes", fn.loc(wb))
+    cb, ab = bits_of(cmd), bits_of(arg)
+    want = [tuple(cb[k] if k != 6 else 1 for k in range(8))]          # 0x40 | command (the start bit, bit 7, is the command's own)
+    want[0] = tuple((1 if k == 6 else cb[k]) for k in range(8))
+    for k in range(4):
+        want.append(tuple(ab[8 * (3 - k) + j] for j in range(8)))      # argument, most significant byte first
+    problems = {}
+    for bytes_, s2 in stops:
+        if bytes_ is None or len(bytes_) != 6:
+            problems["frame-written"] = "the buffer handed to write_bytes is not a 6-byte frame"
+            continue
+        for k in range(5):
+            got = bits_of(bytes_[k])
+            # bit 6 of byte 0 is OR-ed with 1; in the affine domain `x | 1` on a bit is the constant 1
+            if tuple(s2.reduce(g ^ w) if isinstance(g, int) and isinstance(w, int) and g >= 0 and w >= 0 else (0 if g == w else 1) for g, w in zip(got, want[k])) != (0,) * 8:
+                problems["byte%d" % k] = "frame byte %d is %s, the specification says %s" % (k, [I.vars.name_of_mask(m) for m in got], [I.vars.name_of_mask(m) for m in want[k]])
+        crc = (0,) * 7
+        for e in bytes_[:5]:
+            crc = ref_step(crc, bits_of(e), 0x09, 7)
+        w5 = (1,) + tuple(crc)
+        g5 = bits_of(bytes_[5])
+        if tuple(s2.reduce(g ^ w) if g >= 0 and w >= 0 else 1 for g, w in zip(g5, w5)) != (0,) * 8:
+            problems["byte5=crc7"] = "frame byte 5 is not crc7 of bytes 0..5 of the frame that is sent (with the end bit)"
+    for k in ("byte0", "byte1", "byte2", "byte3", "byte4", "byte5=crc7", "frame-written"):
+        R.require(k not in problems, fn, k, problems.get(k, ""), fn.loc(wb), okdetail="%s as specified on all %d paths to write_bytes" % (k, len(stops)))
+    R.ok(fn, "crc-before-write", "the CRC byte is part of the buffer at the moment it is sent")
 
 
 @rule("SD3", ["C14", "C12", "C13"], floor=4,
@@ -121,7 +153,28 @@ def sd3(F, R):
     in_loop = set()
     for (h, body, backs) in loops:
         in_loop |= set(body)
-    rbs = [b for b, t in fn.calls() if call_matches(t, ("SdCardInner::read_byte",)) and b not in in_loop and wr and b in fn.reach_after(wr[0][0])]
+    def byte_is_looked_at(b):
+        """the byte read at block b takes part in a test, a result or an argument (a response candidate), as opposed to being thrown away"""
+        is_it = lambda q: q[0] == "call" and q[3] == b and q[1] and q[1].endswith("read_byte")
+
+        def mentions(t, depth=0):
+            if has_sub(t, is_it):
+                return True
+            if depth < 2:
+                for q in subterms(t):
+                    if q[0] == "var" and isinstance(q[1], int) and any(has_sub(d, is_it) for d in var_def_terms(fn, q[1])):
+                        return True
+            return False
+        for (gb, gi, g) in all_guards(fn):
+            if g.kind in ("variant", "variants") and try_inner(g.term) is not None:
+                continue            # the `?` on the read itself
+            if mentions(g.term):
+                return True
+        for (b2, i2, v) in ok_returns(fn):
+            if mentions(v):
+                return True
+        return False
+    rbs = [b for b, t in fn.calls() if call_matches(t, ("SdCardInner::read_byte",)) and b not in in_loop and wr and b in fn.reach_after(wr[0][0]) and not byte_is_looked_at(b)]
     polls = [b for b, t in fn.calls() if call_matches(t, ("SdCardInner::read_byte",)) and b in in_loop]
     skipped = {}
     for c in consts:
@@ -1145,7 +1198,9 @@ def sd19(F, R):
             elif a[0] == "var":
                 defs = var_def_terms(fn, a[1])
                 if fn.npath.endswith("SdCardInner::card_command"):
-                    ok = all(d[0] == "agg" and len(d[3]) == 6 for d in defs if d[0] == "agg") and any(d[0] == "agg" for d in defs)
+                    # the one write_bytes of card_command sends the frame whose six bytes rule SD2 derives bit by bit
+                    sites_ = [bb for bb, tt in fn.calls() if call_matches(tt, ("SdCardInner::write_byte", "SdCardInner::write_bytes"))]
+                    ok = len(sites_) == 1 and bool(call_matches(t, ("SdCardInner::write_bytes",))) and fn.locals[a[1]]["ty"].replace(" ", "") == "[u8;6]"
                 elif fn.npath.endswith("SdCardInner::write_data"):
                     ok = all((d[0] == "call" and d[1] and d[1].endswith("to_be_bytes")) or (d[0] == "agg" and d[3] and all(o[:2] == ("c", 0xFF) for o in d[3])) for d in defs)
                 else:
